@@ -52,6 +52,10 @@ ASSUMPTIONS = [
     "through select_with (enum-typed ports are not emitted as legal VHDL by cohdl)",
     "VHDL run-time errors (range check, division by zero, index) on valuations where the model leaves some "
     "expression of the design undetermined are skipped and counted",
+    "a VHDL run-time error where the model determines the value is reported only if it is independent of the "
+    "simulation history (every predecessor / start valuation tried) and also occurs when the expression is evaluated "
+    "in a clocked process alone: delta-cycle glitches of the chained concurrent temporaries (transient zero divisor "
+    "through a with-select) are not judged",
     "cv.vhdl is the trusted simulator (calibrated on the upstream cocotb benches)",
 ]
 EXHAUSTIVE = {"quick": False, "thorough": False}
@@ -227,9 +231,10 @@ class _Run:
             return res
         # inputs start from a valuation for which the model determines every expression (instead of 'U'): a VHDL
         # run-time error at time 0 caused by undefined inputs (to_integer("UUU") = 0 as a divisor ...) is not judged
-        j0 = next((j for j in range(len(self.pokes)) if all(self.M[i][j] is not None for i in idxs)), None)
-        if simulate and j0 is not None:
-            vhdl = _with_input_defaults(vhdl, self.slots, self.pokes[j0])
+        clean_vals = [j for j in range(len(self.pokes)) if all(self.M[i][j] is not None for i in idxs)]
+        vhdl0 = vhdl
+        if simulate and clean_vals:
+            vhdl = _with_input_defaults(vhdl0, self.slots, self.pokes[clean_vals[0]])
         d = analyse(vhdl)
         if d.unsupported or d.errors:
             if len(idxs) > 1:
@@ -252,6 +257,22 @@ class _Run:
             sm = Sim(d, top="Top")
             sm.poke(clk=0)
             return sm
+
+        # initialisation transients: at time 0 the boolean temporaries of an if-expression are still `false`, so the
+        # else-operand is selected for one delta whatever the condition is (a zero there is a division by zero at
+        # 0 ns in any simulator).  Try a few other start valuations before giving up.
+        if clean_vals and not d.errors and not d.unsupported:
+            step = max(1, len(clean_vals) // 7)
+            for j0 in clean_vals[::step][:8]:
+                dj = d if j0 == clean_vals[0] else analyse(_with_input_defaults(vhdl0, self.slots, self.pokes[j0]))
+                try:
+                    sm0 = Sim(dj, top="Top")
+                    sm0.poke(clk=0)
+                except (SimError, Blocked):
+                    self.count("start_valuations_with_sim_error_at_time_0")
+                    continue
+                d = dj
+                break
 
         mism = {}  # (i, ctx) -> [first mismatch text, count]
 
@@ -325,6 +346,11 @@ class _Run:
         if genuine:
             if len(idxs) > 1:
                 return self._singles(idxs, simulate, res)
+            if not self._confirmed_in_process(idxs[0], genuine[0][0]):
+                # only the concurrent statements fault: a glitch of the chained temporaries cannot be excluded
+                self.count("valuations_sim_error_concurrent_only_not_judged", len(genuine))
+                genuine = []
+        if genuine:
             r = res[idxs[0]]
             j, e = genuine[0]
             r.findings.append(("c", f"sim_error:{e.kind}",
@@ -337,6 +363,34 @@ class _Run:
         for i in idxs:
             res[i].status = "compared" if res[i].n_cmp else "typeonly"
         return res
+
+    def _confirmed_in_process(self, i, j):
+        """does valuation j also fault in a design that evaluates expression i in the clocked process only (variables,
+        program order: no delta-cycle glitches)?  True when that cannot be refuted."""
+        from cv.harness import loader
+        from cv.vhdl.analyze import analyse
+        from cv.vhdl.sim import Blocked, Sim
+        from cv.vhdl.values import SimError
+
+        src = self.R.design([i], self.types, contexts=("s",))
+        self.count("compilations")
+        try:
+            vhdl = loader.compile_source(src)
+        except loader.Rejected:
+            return True
+        d = analyse(_with_input_defaults(vhdl, self.slots, self.pokes[j]))
+        if d.errors or d.unsupported:
+            return True
+        try:
+            sm = Sim(d, top="Top")
+            sm.poke(clk=0)
+            sm.clock("clk", **self.pokes[j])
+            sm.clock("clk", **self.pokes[j])
+        except SimError:
+            return True
+        except Blocked:
+            return True
+        return False
 
     def _singles(self, idxs, simulate, res0=None):
         self.count("packed_designs_split_into_singles")
